@@ -126,7 +126,13 @@ CONTROLS = [
         (P, '''        prev_state._finish(self.visitor)
         self.visitor = prev_state._prior_visitor''', '''        self.visitor = prev_state._prior_visitor
         prev_state._finish(self.visitor)''')),
-    pos("prune: visitor cached in a local", ["C05"], ["R5.3"],
+    pos("prune: visitor callback bound once in the constructor", ["C05"], ["R5.3"],
+        (P, '''        self.state.location = ptok.location
+        self.visitor.on_pragma(self.state, self._create_value(tokens))''', '''        self.state.location = ptok.location
+        self._on_pragma(self.state, self._create_value(tokens))'''),
+        (P, '''        self.visitor.on_parse_start(self.state)''', '''        self._on_pragma = self.visitor.on_pragma
+        self.visitor.on_parse_start(self.state)''')),
+    neg("visitor read into a local right before its call",
         (P, '''        self.state.location = ptok.location
         self.visitor.on_pragma(self.state, self._create_value(tokens))''', '''        self.state.location = ptok.location
         v = self.visitor
